@@ -32,7 +32,8 @@ def strip_one_bom(text):
 
 @contract('pydbml.tools:remove_bom')
 class c_remove_bom:
-    properties = ('C12',)
+    # C07: exactly one leading byte-order mark is dropped; a second one is a stray token and must reach the grammar
+    properties = ('C12', 'C07')
     params = {'source': 'str'}
     pure = True
     ret = 'str'
